@@ -125,12 +125,16 @@ impl Installation {
 
         debug!("Cache miss for content key: {}", cache_key);
 
-        // Step 2: Look up content key in local indices
-        // Note: local .idx files are keyed by encoding keys, not content keys
+        // Step 2: content key -> encoding key through the encoding table (the
+        // documented chain; local .idx files are keyed by encoding keys), then
+        // the encoding key in the local indices. Only a key the table does not
+        // lead anywhere with falls back to the historical direct lookup.
         let index_entry = {
             let index_manager = self.index_manager.read().await;
-            index_manager
-                .lookup_by_content_key(content_key)
+            self.resolver
+                .resolve_content_key(content_key)
+                .and_then(|encoding_key| index_manager.lookup(&encoding_key))
+                .or_else(|| index_manager.lookup_by_content_key(content_key))
                 .ok_or_else(|| {
                     StorageError::NotFound(format!(
                         "Content key not found in local indices: {cache_key}"
@@ -535,7 +539,11 @@ impl Installation {
     /// should be preferred for accurate local index lookups.
     pub async fn has_content_key(&self, content_key: &ContentKey) -> bool {
         let index_manager = self.index_manager.read().await;
-        index_manager.lookup_by_content_key(content_key).is_some()
+        self.resolver
+            .resolve_content_key(content_key)
+            .and_then(|encoding_key| index_manager.lookup(&encoding_key))
+            .or_else(|| index_manager.lookup_by_content_key(content_key))
+            .is_some()
     }
 
     /// Check if an encoding key exists in local indices (.idx files)
